@@ -1,0 +1,24 @@
+//go:build verif
+
+// Package vhook provides named pause points for external verification harnesses.
+// With the verif build tag a harness can install a handler that is called,
+// on the calling goroutine, each time execution passes a point.
+package vhook
+
+import "sync/atomic"
+
+var handler atomic.Pointer[func(string)]
+
+// Set installs the handler. Install it before the workload starts: the only
+// synchronisation At performs is loading this pointer.
+func Set(h func(point string)) { handler.Store(&h) }
+
+// Clear removes the handler.
+func Clear() { handler.Store(nil) }
+
+// At marks a named point in the code.
+func At(point string) {
+	if h := handler.Load(); h != nil {
+		(*h)(point)
+	}
+}
